@@ -203,6 +203,8 @@ pub fn grammar(full: bool) -> Vec<String> {
         g.insert(format!("CONNECT a.b {}", x));
     }
     for l in ["MODE #pre", "MODE #pre +b", "MODE #pre -b", "MODE #pre +e", "MODE #pre +I", "MODE #pre b", "MODE #pre -b evil*!*@*", "MODE #pre +b evil*!*@*", "MODE #pre -e evil1!*@*", "MODE #pre -o me", "MODE #pre -v bob", "MODE #pre +o ghost", "TOPIC #pre", "TOPIC #pre :", "NAMES #pre", "LIST #pre", "WHO #pre", "PART #pre", "JOIN #pre", "KICK #pre bob", "KICK #pre me", "INVITE zed #pre", "PRIVMSG @#pre :x", "PRIVMSG +#pre :x", "PRIVMSG #pre :x", "PART #solo", "KICK #solo me", "PART #solo,#pre", "JOIN #solo", "NAMES #solo",
+        // a configured channel nobody has touched yet and that has no rank lists at all
+        "PRIVMSG @#bare :x", "NOTICE ~#bare :x", "PRIVMSG @+#bare :x", "PRIVMSG %#bare :x", "NOTICE +#bare :x", "PRIVMSG &#bare :x", "JOIN #bare", "NAMES #bare", "WHO #bare", "MODE #bare", "PRIVMSG ~#solo :x", "NOTICE &#solo :x",
         // arguments that only the trailing form can carry (blanks inside a limit, key or mask)
         "MODE #c +l :25 ", "MODE #c +l : 7", "MODE #c +k :k k", "MODE #c +b :m m!*@*", "JOIN #c :k k", "MODE #c +o :bob ", "WHOWAS bob : 1", "LIST : #c", "KICK #c :bob "] {
         g.insert(l.to_string());
@@ -284,6 +286,10 @@ fn session_scn(sess: Sess, full: bool, pairs: bool) -> ChatScn {
             // a configured channel the actor is alone on: leaving it empties it, and it stays
             name: "#solo".into(),
             operators: vec!["me".into()],
+            ..Default::default()
+        }, crate::scn::CfgChan {
+            // declared with a name only: whatever start-up leaves unset stays unset until used
+            name: "#bare".into(),
             ..Default::default()
         }],
         ..Default::default()
